@@ -400,10 +400,12 @@ class C06(Profile):
         th = tier == "thorough"
         n_inst = 12 if th else 6
         recs = [r for r in corpus_recs() if r["trait"] in AUX_ONLY + ["dependency", "regression"]] + grid_recs(["cleanup", "duplication", "symmetry", "minmax", "sumchains", "math", "projection", "domains", "objectives"])
+        # programs written after the seeded rounds, sampled per class (their own tags are per program)
+        recs += [dict(r, tag=r["tag"].split("#")[0]) for r in grid_recs(["extra"]) if r.get("trait") in AUX_ONLY]
         subsets = [list(c) for k in range(1, 8) for c in itertools.combinations(AUX_ONLY, k)]
         out = []
         checks = ["equiv"] + (["stepwise"] if th else [])
-        sel = recs if th else pick(recs, 900, rng)
+        sel = recs if th else pick(recs, 1000, rng)
         for rec in sel:
             inn, outp = decl_of(rec)
             configs = [list(AUX_ONLY)] + [rng.choice(subsets) for _ in range(3 if th else 1)]
@@ -454,6 +456,8 @@ class C07(Profile):
         inventive = [r for r in corpus_recs() if r["trait"] in ("symmetry", "minmax_chains", "sum_chains", "duplication", "projection", "unused", "math", "inline", "dependency")]
         grids = grid_recs(["symmetry", "minmax", "sumchains", "duplication", "projection", "unused", "domains", "inline", "objectives"])
         names = [r for r in grid_recs(["extra"]) if "localname" in r["tag"] or "globalname" in r["tag"]]
+        # sources that already use names ngo generates, several inventions on one line, a second round of inventions
+        names += [r for r in grid_recs(["extra"]) if any(k in r["tag"] for k in ("y-symmetry-aux-in-source", "y-minmax-one-line:grouped", "y-minmax-one-line:mixed", "y-duplication-second-round"))]
         grids += [r for r in grid_recs(["extra"]) if "two-positions" in r["tag"]]
         vocab = grid_recs(["vocab"])
         robust = grid_recs(["robust"])
@@ -791,6 +795,10 @@ class C19(Profile):
             add(pi, ["default"], None, None, note="default")
             add(pi, ["none"], None, None, note="none")
             add(pi, ["default", "duplication"], None, None, note="default+dup")
+            # both keywords at once, in both orders and with a name in between
+            add(pi, ["all", "default"], None, None, note="all+default")
+            add(pi, ["default", "all"], None, None, note="default+all")
+            add(pi, ["default", "cleanup", "all"], None, None, note="default+name+all")
         add(0, ["ALL"], None, None, note="case")
         add(1, ["Default", "Duplication"], None, None, note="case")
         add(2, ["NONE"], None, None, note="case")
